@@ -656,6 +656,12 @@ fn region_index_and_delta_set_index_out_of_range() {
     fix_checksums(&mut font);
     assert_only(&font, &["region-index:HVAR"]);
 
+    // more delta rows declared than the table holds
+    let mut font = wght_var();
+    put16(&mut font, data, 60000);
+    fix_checksums(&mut font);
+    assert_has(&font, "ivd-size:HVAR");
+
     // MVAR value record -> delta set
     let mut font = compile("MVAR.designspace", &[]);
     let (_, mvar, _) = find(&font, "MVAR");
@@ -959,4 +965,42 @@ fn colr_references() {
     put16(&mut broken, bases, 0xFFF1); // base glyph id
     fix_checksums(&mut broken);
     assert_only(&broken, &["gid-range:COLR-BaseGlyph"]);
+}
+
+// ------------------------------------------------------------------ robustness
+
+/// The checker is fed arbitrary damage and must answer, not panic or hang.
+#[test]
+fn random_damage_never_panics() {
+    let mut state = 0x9E3779B97F4A7C15u64;
+    let mut next = move || {
+        state = state.wrapping_mul(6364136223846793005).wrapping_add(1442695040888963407);
+        (state >> 33) as usize
+    };
+    let mut flagged = 0;
+    let mut total = 0;
+    for font in [wght_var(), oswald(), rich_layout()] {
+        for _ in 0..1500 {
+            let mut broken = font.clone();
+            // damage inside the tables (the directory is covered by the container tests)
+            let start = 12 + 16 * be16(&font, 4);
+            for _ in 0..1 + next() % 3 {
+                let at = start + next() % (font.len() - start);
+                broken[at] = match next() % 4 {
+                    0 => 0xFF,
+                    1 => 0x00,
+                    2 => broken[at].wrapping_add(1),
+                    _ => next() as u8,
+                };
+            }
+            fix_checksums(&mut broken);
+            total += 1;
+            if !check_font(&broken).1.is_empty() {
+                flagged += 1;
+            }
+        }
+    }
+    // most random damage hits coordinates, deltas and strings, which are all legal values;
+    // the structural part must be noticed often enough to show the checks are alive
+    assert!(flagged * 5 > total, "only {flagged} of {total} damaged fonts were flagged");
 }
